@@ -828,6 +828,25 @@ def gen_c18(ctx):
     return cases
 
 
+def hist_c18(ctx):
+    """Launch histories that start differently from the main run (whose process starts with a launch under SIGPIPE ignored and an
+    empty mask): anything the library samples once per process (the disposition, the mask) and reuses for later launches shows up
+    only when the first launch of the process saw something else than a later one.  Each list runs in a process of its own."""
+    hs = []
+    for first in ("in=N out=N err=N det=0 mask=0 sigpipe=dfl", f"in=N out=P err=N det=0 mask={1 << 15:x} sigpipe=dfl",
+                  f"in=P out=P err=P det=0 mask={(1 << 64) - 2:x} sigpipe=ign"):
+        rest = []
+        for sp in ("ign", "dfl", "ign"):
+            for m in (0, 1 << 13, (1 << 64) - 2):
+                for (i, o, e) in (("N", "N", "N"), ("N", "P", "N")):
+                    rest.append(f"in={i} out={o} err={e} det=0 mask={m:x} sigpipe={sp}")
+        hs.append([x + f" argv={TRUE}" for x in [first] + rest])
+    return hs
+
+
+HIST = {"C18": hist_c18}
+
+
 def oracle_c18(c, viol):
     if c["res"][0] != "ok":
         viol(f"launch failed: {' '.join(c['res'])}")
@@ -951,7 +970,8 @@ def check(ctx):
         return
     if ctx.replay:
         rp = json.load(open(ctx.replay))
-        specs = [rp["spec"]]
+        # a violation that needs earlier launches in the same process carries them as its history
+        specs = list(rp.get("history", [])) + [rp["spec"]]
     elif prop == "C07":
         probes, _ = run_harness(ctx, gen_c07(ctx))
         specs = gen_c07(ctx, probes)
@@ -963,6 +983,17 @@ def check(ctx):
                                            f"(rc={proc.returncode})", "stderr": proc.stderr.decode(errors='replace')[-1500:],
                                    "next_spec": specs[len(cases) - 1] if 0 < len(cases) <= len(specs) else None})
         cases = [c for c in cases if c.get("complete")]
+    # ---- launch histories in processes of their own (state carried from one launch of a process to the next)
+    nhist = 0
+    if not ctx.replay and prop in HIST:
+        for hspecs in HIST[prop](ctx):
+            hcases, _ = run_harness(ctx, hspecs)
+            hcases = [c for c in hcases if c.get("complete")]
+            for k, c in enumerate(hcases):
+                c["history"] = hspecs[:k]
+            cases += hcases
+            nhist += len(hcases)
+    cov["cases_in_launch_histories"] = nhist
     # ---- conformance: the Lean model replays the same answers
     model = ctx.run_driver("".join(to_request(c) + "\n" for c in cases)) if cases else []
     ndiv = 0
@@ -980,8 +1011,12 @@ def check(ctx):
         def viol(msg, sig=None, c=c):
             known = sig is not None and ctx.kf.get((prop, sig), {}).get("status") == "known"
             if len(ctx.violations) < 3 or known:
-                ctx.violation({"spec": c["spec"], "case_index": c["index"], "what": msg, "result": " ".join(c["res"]),
-                               "log": c["log"][:60], "replay_cmd": f"./check {prop} --replay <this file>"}, sig)
+                v = {"spec": c["spec"], "case_index": c["index"], "what": msg, "result": " ".join(c["res"]),
+                     "log": c["log"][:60], "replay_cmd": f"./check {prop} --replay <this file>"}
+                if c.get("history"):
+                    v["history"] = c["history"]
+                    v["what"] += f" (after {len(c['history'])} earlier launch(es) in the same process, listed as history: the first one ran under `{c['history'][0].split(' argv=')[0]}`)"
+                ctx.violation(v, sig)
         ORACLE[prop](c, viol)
         key = c["res"][0] + ("" if c["res"][0] != "err" else ":" + c["res"][1])
         dist[key] = dist.get(key, 0) + 1
